@@ -62,4 +62,28 @@ theorem whole_run_saturates (r : Repo) (ops : List Op) (v : ValidRun r ops) :
       RunResult r st.hist (blobsOf ops) (treesOf ops) (commitsOf ops) (tagsOf ops) (refsOf ops) :=
   let ⟨st, h, _, res⟩ := v.result; ⟨st, h, res⟩
 
+
+/-! ## bombs are analysed in linear work
+
+`sizes.Graph` expands each distinct tree once (memo `treeSizes`); what remains is the listener
+cascade that resumes waiting parents. Over a whole run — any delivery order — it performs at most
+as many iterations as the delivered trees have subtree ENTRIES (`Agg.K`), however large the
+expanded trees are (a git bomb of depth d and width k has d·k entries and k^d expanded paths).
+The entry loop itself visits each entry of each delivered tree once (`initLoop` is a fold over the
+tree's entries). -/
+
+/-- cascade iterations of a whole run of tree deliveries ≤ number of subtree entries delivered -/
+theorem tree_work_linear (r : Repo) (wf : ∀ t e, e ∈ treeKids r t → e.2 < t) (ds : List Nat) (hnd : ds.Nodup)
+    (fuel : Nat) (hfuel : Agg.K (PB r) ds ≤ fuel) :
+    Agg.runSteps (PB r) fuel ds Agg.init ≤ Agg.K (PB r) ds :=
+  Agg.cascade_steps_linear (lawsB r) (show Agg.WFk (PB r) from wf) ds hnd fuel hfuel
+
+/-- the bound is the number of subtree entries, a quantity of the STORED trees -/
+theorem work_bound_is_stored_entries (r : Repo) (ds : List Nat) :
+    Agg.K (PB r) ds = (ds.map fun t => (treeKids r t).length).sum := rfl
+
+/-- non-vacuity: a 3-level bomb (each level holds the previous one twice) delivered top-down -/
+example : Agg.runSteps (PB [.blob 1, .tree 0 [⟨0o100644, [97], 0⟩], .tree 0 [⟨0o40000, [97], 1⟩, ⟨0o40000, [98], 1⟩],
+      .tree 0 [⟨0o40000, [97], 2⟩, ⟨0o40000, [98], 2⟩]]) 10 [3, 2, 1] Agg.init = 4 := by decide
+
 end GitSizer.C05
